@@ -265,8 +265,19 @@ impl RoutingThread {
         let mut peer_key_list: Vec<SaitoPublicKey> = vec![];
         {
             let peers = self.network.peer_lock.read().await;
-            let peer = peers.find_peer_by_index(peer_index).unwrap();
-            peer_key_list.push(peer.public_key.unwrap());
+            // only a peer that completed the handshake has a key to build the ghost chain for
+            let Some(peer) = peers.find_peer_by_index(peer_index) else {
+                warn!("ghost chain requested by unknown peer : {:?}", peer_index);
+                return;
+            };
+            let Some(public_key) = peer.public_key else {
+                warn!(
+                    "ghost chain requested by peer : {:?} before its handshake completed",
+                    peer_index
+                );
+                return;
+            };
+            peer_key_list.push(public_key);
             peer_key_list.append(&mut peer.key_list.clone());
         }
 
